@@ -19,7 +19,7 @@ import z3
 
 from pyvc import core, stdlib
 from pyvc.core import And, Or, Not, Implies, lift_bool, lift_int, Undecided, SInt, SOid, SXVal, SStr, Sym, zint, OID, Int, PStr
-from pyvc.objects import Obj, NT, PyExc, PDict, PyClass, Builtin, BoundMethod, GenResult
+from pyvc.objects import Obj, NT, PyExc, PDict, PyClass, Builtin, BoundMethod, GenResult, Opaque
 from pyvc.vu import VU
 from pyvc.theories import OidTheory, XValTheory, SNodes
 from .common import oname, get_cls, exc_is, get_func, varbind, bare_client
@@ -217,6 +217,8 @@ class TableCall(VU):
         oid = ctx.fresh_oid("table_oid")
         fn = get_func(rt, interp, self.target)
         kwargs = {"bulk_size": ctx.fresh_int("bulk_size")} if self.bulk else {}
+        if self.bulk:
+            ctx.assume(kwargs["bulk_size"] >= 1)
         res = interp.call(BoundMethod(fn, client), [oid], kwargs)
         T = self.target
         ok = len(calls["walk"]) == 1 and len(calls["tablify"]) == 1
@@ -225,11 +227,12 @@ class TableCall(VU):
             return "?"
         wa, wk = calls["walk"][0]
         if self.bulk:
+            used = wk.get("bulk_size", 10)        # (bulkwalk's own default when the table call leaves it out)
             good = len(wa) == 1 and isinstance(wa[0], list) and len(wa[0]) == 1 and And(
-                interp.eq(wa[0][0], oid), interp.eq(wk.get("bulk_size"), kwargs["bulk_size"]))
+                interp.eq(wa[0][0], oid), isinstance(used, (int, SInt)) and not isinstance(used, bool) and lift_bool(zint(used) >= 1))
         else:
             good = len(wa) == 1 and interp.eq(wa[0], oid)
-        ctx.check(oname("C16", T, "ensures", "walks-exactly-the-given-oid%s" % ("-with-the-given-bulk-size" if self.bulk else "")), good)
+        ctx.check(oname("C16", T, "ensures", "walks-exactly-the-given-oid%s" % ("-with-at-least-one-repetition" if self.bulk else "")), good)
         ta, tk = calls["tablify"][0]
         seq = ta[0] if ta else tk.get("varbinds")
         same = isinstance(seq, list) and len(seq) == self.k and all(x is y for x, y in zip(seq, stream))
@@ -240,6 +243,83 @@ class TableCall(VU):
                   nb is not None and lift_bool(zint(nb) == want))
         ctx.check(oname("C16", T, "ensures", "returns-tablifys-rows"), res is marker)
         return "returns"
+
+
+class WalkCall(VU):
+    """Client.walk / Client.bulkwalk are thin wrappers: they must hand multiwalk exactly the caller's roots (walk: the one
+    OID and the error mode; bulkwalk: the list and a bulk fetcher built for exactly the caller's bulk size) and pass every
+    binding of multiwalk's stream on, in order."""
+    label = "proved-shape-bounded(stream length enumerated)"
+
+    def __init__(self, bulk, k, n_roots=1):
+        self.bulk, self.k, self.n = bulk, k, n_roots
+        self.props = ("C02", "C16") if bulk else ("C01", "C16")
+        self.target = "puresnmp.api.raw:Client.%s" % ("bulkwalk" if bulk else "walk")
+        self.functions = (self.target,)
+        self.name = "Client.%s[%d roots, stream of %d]" % ("bulkwalk" if bulk else "walk", n_roots, k)
+
+    def setup(self, rt, interp):
+        self.rt = rt
+        if rt.oid is None:
+            rt.oid = OidTheory(rt)
+        self.xv = XValTheory(rt, interp)
+
+    def run(self, interp):
+        ctx, rt = interp.ctx, self.rt
+        stream = [varbind(rt, interp, ctx.fresh_oid("o%d" % j), self.xv.fresh(ctx, "v%d" % j)) for j in range(self.k)]
+        calls = {"multiwalk": [], "fetcher": []}
+        marker = Opaque("bulk-fetcher")
+
+        def multiwalk_hook(i, c, a, k):
+            calls["multiwalk"].append((a[1:], k))
+            return GenResult(list(stream), from_function=True)
+
+        def fetcher_hook(i, c, a, k):
+            calls["fetcher"].append((a[1:], k))
+            return marker
+        rt.hooks["puresnmp.api.raw:Client.multiwalk"] = multiwalk_hook
+        rt.hooks["puresnmp.api.raw:Client._bulkwalk_fetcher"] = fetcher_hook
+        client = bare_client(rt, interp)
+        roots = [ctx.fresh_oid("root%d" % j) for j in range(self.n)]
+        fn = get_func(rt, interp, self.target)
+        got = []
+        interp.on_yield = lambda i, frame, value: got.append(value) if frame.func is not None and frame.func.info.fullname == self.target else None
+        if self.bulk:
+            size = ctx.fresh_int("bulk_size")
+            ctx.assume(size >= 1)
+            args, kwargs = [list(roots)], {"bulk_size": size}
+        else:
+            mode = ctx.fresh_str("errors")
+            args, kwargs = [roots[0]], {"errors": mode}
+        interp.call(BoundMethod(fn, client), args, kwargs)
+        T = self.target
+        for p in self.props:
+            ok = len(calls["multiwalk"]) == 1
+            ctx.check(oname(p, T, "ensures", "exactly-one-multiwalk"), ok)
+            if not ok:
+                continue
+            a, k = calls["multiwalk"][0]
+            given = a[0] if a else k.get("oids")
+            same_roots = isinstance(given, list) and len(given) == self.n and And(*[interp.eq(x, y) for x, y in zip(given, roots)])
+            ctx.check(oname(p, T, "ensures", "walks-exactly-the-callers-roots-in-the-callers-order"), same_roots)
+            if self.bulk:
+                # any repetition count >= 1 gives the same walk (that is the property); 0 or a non-integer does not
+                fa = calls["fetcher"]
+                used = (fa[0][0][0] if fa[0][0] else fa[0][1].get("bulk_size")) if len(fa) == 1 else None
+                size_ok = isinstance(used, (int, SInt)) and not isinstance(used, bool) and lift_bool(zint(used) >= 1)
+                ctx.check(oname(p, T, "ensures", "with-a-bulk-fetcher-for-at-least-one-repetition"),
+                          And(size_ok, k.get("fetcher") is marker or (len(a) > 1 and a[1] is marker)))
+            else:
+                ctx.check(oname(p, T, "ensures", "with-the-default-fetcher-and-the-callers-error-mode"),
+                          "fetcher" not in k and len(a) == 1 and interp.eq(k.get("errors"), mode))
+            ok = len(got) == self.k and all(
+                (g is s) or (isinstance(g, NT) and len(g) == 2 and g[0] is s[0] and g[1] is s[1]) for g, s in zip(got, stream))
+            ctx.check(oname(p, T, "ensures", "passes-on-every-binding-of-the-stream-in-order"), ok)
+        return "returns"
+
+
+def units_walkcall(tier):
+    return [WalkCall(b, k, n) for b in (False, True) for (k, n) in ((0, 1), (2, 1))] + [WalkCall(True, 2, 2), WalkCall(True, 0, 3)]
 
 
 def units(tier):
